@@ -71,20 +71,29 @@ void STP::port_id(uint16_t new_port_id) {
     header_.port_id = Endian::host_to_be(new_port_id);
 }
 
+// The timers are stored as 16 bit counts of 1/256 seconds: whole seconds
+// above 255 can't be represented
+static uint16_t seconds_to_timer(uint16_t seconds) {
+    if (seconds > 0xff) {
+        throw value_too_large();
+    }
+    return Endian::host_to_be<uint16_t>(seconds * 256);
+}
+
 void STP::msg_age(uint16_t new_msg_age) {
-    header_.msg_age = Endian::host_to_be<uint16_t>(new_msg_age * 256);
+    header_.msg_age = seconds_to_timer(new_msg_age);
 }
 
 void STP::max_age(uint16_t new_max_age) {
-    header_.max_age = Endian::host_to_be<uint16_t>(new_max_age * 256);
+    header_.max_age = seconds_to_timer(new_max_age);
 }
 
 void STP::hello_time(uint16_t new_hello_time) {
-    header_.hello_time = Endian::host_to_be<uint16_t>(new_hello_time * 256);
+    header_.hello_time = seconds_to_timer(new_hello_time);
 }
 
 void STP::fwd_delay(uint16_t new_fwd_delay) {
-    header_.fwd_delay = Endian::host_to_be<uint16_t>(new_fwd_delay * 256);
+    header_.fwd_delay = seconds_to_timer(new_fwd_delay);
 }
 
 STP::bpdu_id_type STP::root_id() const {
